@@ -623,6 +623,13 @@ func (e *env) exec(op Op) {
 		if op.N == 1 {
 			kind = "prio"
 		}
+		if op.N == 2 && e.p.Kind == "plain" {
+			// a persistent queue that already holds entries (op.Ks) is bound while the worker is in use
+			kind = "pers"
+			a := e.newAdapter(false)
+			a.preload(op.Ks, nil, nil)
+			e.adapters = e.adapters[:len(e.adapters)-1] // bind() below takes it again
+		}
 		c := e.call("bind", kind)
 		q := e.bind(kind)
 		e.qs = append(e.qs, q)
